@@ -125,7 +125,8 @@ def run_family(name, progs, shards=None, extra_header="", extra_deps="", timeout
     res.name, res.extra_header, res.deps_override = name, extra_header, deps_override
     if not progs:
         raise MachineryError("family %s is empty" % name)
-    shards = shards or NCPU
+    # rustc is single-threaded per crate and slows down superlinearly on very large crates: at most ~600 programs per shard crate
+    shards = shards or max(NCPU, (len(progs) + 599) // 600)
     shards = max(1, min(shards, len(progs)))
     fam_dir = os.path.join(WORK, "e2", name)
     os.makedirs(fam_dir, exist_ok=True)
